@@ -98,6 +98,7 @@ def obligations(tier, seed):
 
     obs = _sim_obligations(tier, seed)
     thorough = tier == "thorough"
+    obs += profiles.with_history([ob for ob in _sim_obligations(tier, seed) if ob["name"].startswith("abs/") and "k=FS" in ob["name"] and "flag=0" in ob["name"] and "pa0=1" in ob["name"]], "changed-absence", 2)
     resumed = [ob for ob in obs if ob["name"].startswith("abs/") and "/pa0=" not in ob["name"] and ("k=FS" in ob["name"] or thorough)]
     obs += profiles.with_history([ob for ob in _sim_obligations(tier, seed) if ob["name"].startswith("abs/") and "k=FS" in ob["name"] and "pa0=1" in ob["name"]], "resume", 4)
     for ob in list(obs):
